@@ -26,6 +26,12 @@ def _defs(body):
             else:
                 for bd in hir.pat_bindings(pat):
                     d[bd["id"]] = init
+        elif l.get("k") == "MethodCall" and l["m"] in ("map", "and_then", "map_or", "map_or_else"):
+            # the parameter of the closure receives what the receiver holds (`range.map(|range| Location { uri, range })`)
+            cl_ = hir.strip(l["args"][-1]) if l["args"] else {}
+            if cl_.get("k") == "Closure" and len(cl_.get("params") or []) == 1:
+                for bd in hir.pat_bindings(cl_["params"][0]):
+                    d.setdefault(bd["id"], l["recv"])
     return d
 
 
@@ -43,7 +49,7 @@ _CONV_NOW = {"names": CONV}
 
 def from_conv(e, body, dmap, pmap, depth=0):
     """True / False / ('param', i, name): is the value derived only from as_position/as_pos_range results?"""
-    if depth > 15 or e is None:
+    if depth > 40 or e is None:
         return False
     e = hir.strip_ref(e)
     k = e.get("k")
@@ -51,25 +57,44 @@ def from_conv(e, body, dmap, pmap, depth=0):
         # a method of the crate that answers with a conversion result (`target.pos_range(&occurrence)`)
         prog = _CONV_NOW.get("prog")
         hb = hir.local_callee_body(prog, e) if prog is not None else None
-        if hb is not None and hb["_crate"] is body["_crate"] and depth < 10 and hb["k"] in ("fn", "assoc_fn") and \
+        if hb is not None and hb["_crate"] is body["_crate"] and depth < 25 and hb["k"] in ("fn", "assoc_fn") and \
                 not any(True for _ in hir.nodes(hb["body"], "Ret")):
             hbody = hir.strip(hb["body"])
             tail = hbody["b"].get("expr") if hbody.get("k") == "BlockExpr" else hbody
             if tail is not None and from_conv(tail, hb, _defs(hb), _params(hb), depth + 5) is True:
                 return True
         return False
+    if k == "Closure":
+        # a conversion handed over as a function value: what matters is what it answers with
+        cb = hir.strip(e["body"])
+        tail = cb["b"].get("expr") if cb.get("k") == "BlockExpr" else cb
+        if tail is None or any(True for _ in hir.nodes(e["body"], "Ret")):
+            return False
+        return from_conv(tail, body, dmap, pmap, depth + 1)
+    if k == "Call" and hir.path_local(hir.strip(e["f"])) is not None:
+        # the result of calling a function value: decided where the function value comes from
+        return from_conv(e["f"], body, dmap, pmap, depth + 1)
     if k == "Call":
         d = hir.callee_display(e) or ""
         if d in _CONV_NOW["names"]:
             return True
+        if last_seg((hir.path_def(e["f"]) or {}).get("ctor_of", "")) in ("Some", "Ok") and len(e["args"]) == 1:
+            return from_conv(e["args"][0], body, dmap, pmap, depth + 1)
         # arithmetic on positions moved into a local helper: the result derives from conversions if the helper computes it from
         # its parameters only and every argument does
         prog = _CONV_NOW.get("prog")
         hb = hir.local_callee_body(prog, e) if prog is not None else None
-        if hb is not None and hb["_crate"] is body["_crate"] and depth < 10 and hb["k"] in ("fn", "assoc_fn"):
+        if hb is not None and hb["_crate"] is body["_crate"] and depth < 25 and hb["k"] in ("fn", "assoc_fn"):
             hbody = hir.strip(hb["body"])
             tail = hbody["b"].get("expr") if hbody.get("k") == "BlockExpr" else hbody
-            if tail is not None and not any(True for _ in hir.nodes(hb["body"], "Ret")):
+            rets = [r_ for r_ in hir.nodes(hb["body"], "Ret")]
+            if tail is not None and rets and all(r_.get("e") is not None for r_ in rets):
+                # early returns: every value the helper can answer with
+                vals = [from_conv(x_, hb, _defs(hb), _params(hb), depth + 5) for x_ in [tail] + [r_["e"] for r_ in rets]]
+                if all(v is True for v in vals):
+                    return True
+                return False
+            if tail is not None and not rets:
                 r = from_conv(tail, hb, _defs(hb), _params(hb), depth + 5)
                 if r is True:
                     # the helper answers with a conversion result whatever it is handed
@@ -124,6 +149,18 @@ def from_conv(e, body, dmap, pmap, depth=0):
     if k == "BlockExpr":
         t = e["b"].get("expr")
         return from_conv(t, body, dmap, pmap, depth + 1) if t else False
+    if k == "Match" and e.get("arms"):
+        vals = [from_conv(a_["body"], body, dmap, pmap, depth + 1) for a_ in e["arms"]
+                if hir.strip(a_["body"]).get("k") not in ("Ret", "Continue", "Break")]
+        if vals and all(v is True for v in vals):
+            return True
+        if vals and all(v is True or isinstance(v, tuple) for v in vals):
+            return [v for v in vals if isinstance(v, tuple)][0]
+        return False
+    if k in ("Try", "Await"):
+        return from_conv(e.get("e"), body, dmap, pmap, depth + 1)
+    if k == "Path" and last_seg(e["res"].get("ctor_of", "")) == "None":
+        return True
     if k == "MethodCall" and e["m"] in ("clone", "to_owned", "into", "try_into", "unwrap", "expect"):
         return from_conv(e["recv"], body, dmap, pmap, depth + 1)
     return False
@@ -692,6 +729,50 @@ def rule_index_elem(prog):
                                 return place(hir.strip_ref(hir.strip(e_["args"][j_]))) == vec_place
             return False
 
+        def counted_over(body_, idx_id, vec_place):
+            """the local idx_id runs over `0..v.len()` of the very vector that is indexed (`for i in 0..v.len()`,
+            `(0..v.len()).filter_map(|i| ..)`), or is the counter of `v.iter().enumerate()`"""
+            def is_len_range(e_):
+                e_ = hir.strip(e_)
+                if e_.get("k") == "Struct" and (e_.get("adt") or "") == "core::ops::range::Range":
+                    f_ = {x_["name"]: x_["e"] for x_ in e_["fields"]}
+                    end_ = hir.strip(f_.get("end") or {})
+                    return end_.get("k") == "MethodCall" and end_["m"] == "len" and place(hir.strip_ref(hir.strip(end_["recv"]))) == vec_place
+                return False
+            for n_ in hir.nodes(body_["body"]):
+                if n_.get("k") == "ForLoop" and is_len_range(n_["iter"]) and any(bd["id"] == idx_id for bd in hir.pat_bindings(n_["pat"])):
+                    return True
+                if n_.get("k") == "MethodCall" and is_len_range(n_["recv"]):
+                    for a_ in n_["args"]:
+                        a_ = hir.strip(a_)
+                        if a_.get("k") == "Closure" and len(a_.get("params") or []) == 1 and \
+                                any(bd["id"] == idx_id for bd in hir.pat_bindings(a_["params"][0])):
+                            return True
+            return False
+
+        def param_sites_ok(ix_):
+            """`v[i]` with v and i both parameters: decided at the call sites -> True / None"""
+            vl_, il_ = hir.path_local(hir.strip_ref(hir.strip(ix_["base"]))), hir.path_local(hir.strip(ix_["idx"]))
+            pids_ = [q_["id"] if q_.get("k") == "Binding" else None for q_ in b["params"]]
+            if not vl_ or not il_ or vl_["id"] not in pids_ or il_["id"] not in pids_:
+                return False
+            vi_, ii_ = pids_.index(vl_["id"]), pids_.index(il_["id"])
+            sites_ = []
+            for y in c.bodies:
+                if "/tests" in c.file_of(y["sp"]) or y["k"] not in ("fn", "assoc_fn"):
+                    continue
+                for cl_ in hir.nodes(y["body"], "Call"):
+                    if hir.callee(cl_) == b["p"] and len(cl_["args"]) == len(pids_):
+                        sites_.append((y, cl_))
+            if not sites_:
+                return None
+            for y, cl_ in sites_:
+                ia_ = hir.path_local(hir.strip(cl_["args"][ii_]))
+                vp2_ = place(hir.strip_ref(hir.strip(cl_["args"][vi_])))
+                if not ia_ or not vp2_ or not counted_over(y, ia_["id"], vp2_):
+                    return None
+            return True
+
         for ix, ix_parents in hir.walk(b["body"]):
             if ix.get("k") != "Index":
                 continue
@@ -711,7 +792,16 @@ def rule_index_elem(prog):
                             lit = True
                 if vp_ and searched_in(ix["idx"], vp_):
                     lit = True
-            out.add(b["d"], "vectors are sliced by ranges, never element-indexed with a computed index", is_range or lit, c.loc(ix["sp"]),
+                il0_ = hir.path_local(hir.strip(ix["idx"]))
+                if vp_ and il0_ and counted_over(b, il0_["id"], vp_):
+                    lit = True
+                if not lit:
+                    ps_ = param_sites_ok(ix)
+                    if ps_ is True:
+                        lit = True
+                    elif ps_ is None:
+                        lit = None
+            out.add(b["d"], "vectors are sliced by ranges, never element-indexed with a computed index", (is_range or lit) if lit is not None else None, c.loc(ix["sp"]),
                     "`v[i]` with a computed index panics when the index is out of bounds; in a handler the index depends on the "
                     "document and the cursor (e.g. more commas than parameters), and a panic kills the server")
     if n < 10:
